@@ -37,6 +37,10 @@ class Path(PathRun, ExprMixin, CallMixin, BuiltinMixin, StmtMixin):
             r = self.quantify(fr, node.args[0], node.func.id == 'all')
             if r is not None:
                 return r
+        if (isinstance(node.func, ast.Name) and node.func.id == 'sum' and len(node.args) == 1 and isinstance(node.args[0], ast.GeneratorExp)
+                and isinstance(node.args[0].elt, ast.Constant) and node.args[0].elt.value == 1 and 'sum' not in fr.env):
+            r = self.comprehension(fr, node.args[0], 'list')
+            return lift(len(r.elems)) if isinstance(r, STuple) else SInt(z3.Length(r.t))
         if isinstance(node.func, ast.Name) and node.func.id == 'implies' and len(node.args) == 2 and self.specmode:
             a = self.truthy(self.eval(fr, node.args[0]))
             if z3.is_false(z3.simplify(a)):
@@ -47,6 +51,12 @@ class Path(PathRun, ExprMixin, CallMixin, BuiltinMixin, StmtMixin):
     def call_builtin(self, fr, f, args, kw, node=None):
         if f.name.startswith('dynmeth!'):
             nm = f.name.split('!', 1)[1]
+            mr = getattr(self.d.contract, 'method_results', None) or {}
+            if nm in mr:
+                key = ('method-result', nm, str(f.self_.t), tuple(str(self.to_val(a)) for a in args))
+                if key not in self.gcache:
+                    self.gcache[key] = self.sym_cases_fixed(mr[nm], self.fresh('mres.' + nm))
+                return self.gcache[key]
             self.d.used_builtins.add('opaque-method:' + nm)
             g = uf(f'meth_{nm}_{len(args)}', *([Val] * (len(args) + 1)), Val)
             return SDyn(g(f.self_.t, *[self.to_val(a) for a in args]))
@@ -499,6 +509,12 @@ class Driver:
                 v = p.heap[v.oid][q] if isinstance(v, SObj) else None
             if isinstance(v, SObj):
                 allowed.add((v.oid, parts[-1]))
+        for fname, arr in p.fields.items():
+            if f'fields:{fname}' in c.modifies:
+                continue
+            init = p.pre_fields.get(fname, p.fields0.get(fname))
+            if init is not None and not arr.eq(init):
+                p.prove(arr == init, 'frame', f'attribute {fname} of objects outside the heap model is unchanged ({when})', None)
         for oid, rec in p.heap.items():
             pre = p.pre_heap.get(oid)
             if pre is None or pre.get('__shape__') is None:
